@@ -121,4 +121,58 @@ def replay(ctx, functionals, prefix):
                 if why:
                     ctx.violation("%s/operand-pattern/%s" % (prefix, f), "%s(method=%s) with operands A:%s B:%s E:%s M:%s (tg: requires grad, tn: no grad, none: absent): %s"
                                   % (f, method, kA, kB, kE, kM, why), {"f": f, "kinds": [kA, kB, kE, kM], "method": method})
+    n += shared_leaf_rows(ctx, functionals, prefix)
+    return n
+
+
+def shared_leaf_rows(ctx, functionals, prefix):
+    """all operands computed from ONE leaf (operator, right-hand side, shifts and metric depend on each other through it):
+    the gradient w.r.t. the leaf is the total derivative of the dense reference"""
+    n = 0
+    eye = torch.eye(N, dtype=DT)
+    with warnings.catch_warnings():
+        warnings.simplefilter("ignore")
+        for f in functionals:
+            for method, opts, tol in METHODS[f]:
+                for cg in (False, True):
+                    n += 1
+                    ctx.case(key=("operand-shared-leaf", f, method, cg))
+                    g = torch.Generator().manual_seed(4100 + ctx.seed)
+                    P = (torch.randn(N, N, generator=g, dtype=DT) * 0.3).requires_grad_()
+
+                    def build(Pm):
+                        Am = (Pm + Pm.T) * 0.5 + (4.0 * eye if f == "solve" else torch.diag(torch.arange(N, dtype=DT)))
+                        return Am, Pm @ torch.ones(N, 2, dtype=DT) + 1.0, -(Pm.diagonal()[:2] ** 2 + 0.5), eye + 0.05 * (Pm @ Pm.T)
+                    why = None
+                    try:
+                        wv = torch.cos(torch.arange(2 + 2 * N, dtype=DT) * 0.7)
+                        Am, B, E, Mm = build(P)
+                        P2 = P.detach().clone().requires_grad_()
+                        Am2, B2, E2, Mm2 = build(P2)
+                        if f == "solve":
+                            X = xitorch.linalg.solve(LinearOperator.m(Am, is_hermitian=True), B, E, LinearOperator.m(Mm, is_hermitian=True), method=method, **opts)
+                            Xr = torch.cat([torch.linalg.solve(Am2 - E2[c] * Mm2, B2[:, c:c + 1]) for c in range(2)], dim=-1)
+                            L, Lr = (X ** 2).sum(), (Xr ** 2).sum()
+                        else:
+                            ev, U = xitorch.linalg.symeig(LinearOperator.m(Am, is_hermitian=True), neig=2, mode="lowest", M=LinearOperator.m(Mm, is_hermitian=True), method=method, **opts)
+                            Lc = torch.linalg.cholesky(Mm2)
+                            Li = torch.linalg.inv(Lc)
+                            e2, Uc = torch.linalg.eigh(Li @ Am2 @ Li.T)
+                            U2 = (Li.T @ Uc)[:, :2]
+                            L = (torch.cat([ev, (U ** 2).reshape(-1)]) * wv).sum()
+                            Lr = (torch.cat([e2[:2], (U2 ** 2).reshape(-1)]) * wv).sum()
+                        g1, = torch.autograd.grad(L, P, create_graph=cg)
+                        r1, = torch.autograd.grad(Lr, P2, create_graph=cg)
+                        if not torch.allclose(g1, r1, atol=40 * tol, rtol=40 * tol):
+                            why = "gradient w.r.t. the shared leaf differs from the dense reference by %.2e" % float((g1 - r1).abs().max())
+                        elif cg:
+                            h1, = torch.autograd.grad((g1 ** 2).sum(), P)
+                            h2, = torch.autograd.grad((r1 ** 2).sum(), P2)
+                            if not torch.allclose(h1, h2, atol=4000 * tol, rtol=4000 * tol):
+                                why = "second-order gradient w.r.t. the shared leaf differs from the dense reference by %.2e" % float((h1 - h2).abs().max())
+                    except Exception as e:
+                        why = "raised %s: %s" % (type(e).__name__, str(e)[:150])
+                    if why:
+                        ctx.violation("%s/operand-shared-leaf/%s" % (prefix, f), "%s(method=%s), every operand computed from one leaf, backward %s graph recording: %s"
+                                      % (f, method, "with" if cg else "without", why), {"f": f, "method": method})
     return n
